@@ -7,4 +7,4 @@ pkg=$1; probe=$2; shift 2
 dst=$REPO/$pkg/zz_$(basename $probe)
 cp $probe $dst
 trap "rm -f $dst" EXIT
-cd $REPO/$pkg && go test -count=1 -vet=off -run 'TestProbe' "$@" . 2>&1 | tail -25
+cd $REPO/$pkg && go test -count=1 -vet=off -run 'TestProbe' "$@" . 2>&1 | tail -${PROBE_TAIL:-25}
